@@ -176,18 +176,21 @@ func VerifC15_Subset() {
 			}
 		}
 		verif.Assert(member, "subset balancer chose a host outside the cluster")
+		want := 0 // size of the host set the request may be sent to
 		switch {
 		case shape == 4:
 			verif.Assert(r != nil, "no criteria: any host of the cluster")
+			want = n
 		case selectorExists && matching > 0:
 			verif.Assert(r != nil && zzHas(r, crit), "subset match must return a host carrying every criteria pair")
-			verif.Assert(lb.HostNum(ctx.crit) == matching, "HostNum of a matched subset")
+			want = matching
 			verif.Cover("matched")
 		case policy == 0:
 			verif.Assert(r == nil, "fallback none must not return a host")
 			verif.Cover("fallback-none")
 		case policy == 1:
 			verif.Assert(r != nil, "fallback any-endpoint must return some host")
+			want = n
 			verif.Cover("fallback-any")
 		default:
 			def := []zzCriterion{{"k1", dv}}
@@ -195,6 +198,7 @@ func VerifC15_Subset() {
 			for _, h := range hs {
 				if zzHas(h, def) {
 					anyDef = true
+					want++
 				}
 			}
 			if anyDef {
@@ -204,6 +208,14 @@ func VerifC15_Subset() {
 			}
 			verif.Cover("fallback-default")
 		}
+		// HostNum / IsExistsHosts gate the request in the cluster manager: they must
+		// describe the same host set ChooseHost draws from (match, else the fallback).
+		var mc api.MetadataMatchCriteria
+		if shape != 4 {
+			mc = ctx.crit
+		}
+		verif.Assert(lb.HostNum(mc) == want, "HostNum is not the size of the matched subset / fallback host set")
+		verif.Assert(lb.IsExistsHosts(mc) == (want > 0), "IsExistsHosts disagrees with the matched subset / fallback host set")
 	}
 	verif.Cover("end")
 }
